@@ -685,6 +685,18 @@ func (cl *cluster) enabled() []string {
 			if cl.task != nil && !cl.task.done && (cl.task.kind == "rebuild" || cl.task.kind == "clone") && !cl.failXfer && faultsLeft(1) && cl.cnt["transfers_failed"] == 0 {
 				out = append(out, "XferFail")
 			}
+		case "PingOK", "PingF", "ConnDrop":
+			if !c.RealMon {
+				continue
+			}
+			for i := range attached {
+				if b := cl.attachedBE(i); b != nil && b.realMon && (t == "PingOK" || faultsLeft(1)) {
+					if t == "PingOK" && cl.cnt["ev_PingOK"] >= 2 {
+						continue
+					}
+					out = append(out, fmt.Sprintf("%s:%d", t, i))
+				}
+			}
 		case "UnB":
 			if !c.Real || cl.nUnmaps >= 1 || len(readers) == 0 || (!c.UnmapAnytime && ((cl.task != nil && !cl.task.done) || len(readers) != len(writers))) {
 				continue
